@@ -821,3 +821,51 @@ Proof.
   unfold serve. destruct (c_srvclosed c); simpl next_fault; cbv beta iota;
     destruct f; try discriminate; simpl; destruct (rk k); simpl; try rewrite read_log; reflexivity.
 Qed.
+
+(* ------------------------------------------------------------------ nothing is ever sent in answer to a oneway request *)
+(* whatever the network does and whatever the method does: the server produces no reply for a oneway
+   request (the list of replies it ever produced is unchanged) and the client consumes none *)
+Lemma oneway_attempt_no_reply : forall d k tok st fs,
+  rk k = None ->
+  s_replies (a_st (attempt d k tok st fs)) = s_replies st.
+Proof.
+  intros d k tok st fs Hk.
+  assert (Hinv : forall c fs0, s_replies (a_st (invoke d k tok st c fs0)) = s_replies st).
+  { intros c fs0. unfold invoke. destruct (c_broken c); [reflexivity|].
+    unfold serve, own_reply. rewrite Hk.
+    destruct (c_srvclosed c); [simpl; rewrite ?Hk; reflexivity|].
+    destruct (next_fault fs0) as [f fs'].
+    destruct f; simpl;
+      try (match goal with |- context [arrive ?F ?O ?R] => destruct (arrive F O R) as [[q dl] br] end);
+      rewrite ?Hk; reflexivity. }
+  unfold attempt. destruct (p_conn st); [apply Hinv|].
+  destruct (is_stream k); [reflexivity|].
+  destruct (next_fault fs) as [f fs']. destruct (connect st f); [reflexivity | apply Hinv].
+Qed.
+
+Lemma oneway_call_no_reply : forall d k tok n st fs,
+  rk k = None ->
+  s_replies (snd (attempts d k tok n st fs)) = s_replies st.
+Proof.
+  intros d k tok n. induction n as [|n IH]; intros st fs Hk; simpl.
+  - destruct (a_res (attempt d k tok st fs)); simpl; apply oneway_attempt_no_reply; exact Hk.
+  - destruct (a_res (attempt d k tok st fs)) as [e|o]; simpl; [|apply oneway_attempt_no_reply; exact Hk].
+    destruct (retryable d e); simpl; [|apply oneway_attempt_no_reply; exact Hk].
+    rewrite IH by exact Hk. apply oneway_attempt_no_reply; exact Hk.
+Qed.
+
+(* a oneway attempt never reads: whatever was waiting in the connection is still there, in order *)
+Lemma oneway_attempt_reads_nothing : forall d k tok st c fs,
+  rk k = None -> p_conn st = Some c -> c_broken c = false ->
+  exists c' extra, p_conn (a_st (attempt d k tok st fs)) = Some c' /\ c_queue c' = c_queue c ++ c_delayed c ++ extra.
+Proof.
+  intros d k tok st c fs Hk Hc Hb. unfold attempt. rewrite Hc. unfold invoke. rewrite Hb.
+  unfold serve, own_reply. rewrite Hk.
+  destruct (c_srvclosed c); [simpl; rewrite ?Hk; simpl; eexists; exists []; split; [reflexivity | simpl; rewrite app_nil_r; reflexivity]|].
+  destruct (next_fault fs) as [f fs'].
+  destruct f; simpl;
+    try (match goal with |- context [arrive ?F ?O ?R] => destruct (arrive F O R) as [[q dl] br] eqn:Ha end);
+    rewrite ?Hk; simpl; eexists;
+    first [ exists []; split; [reflexivity | simpl; rewrite app_nil_r; reflexivity]
+          | eexists; split; [reflexivity | simpl; rewrite <- app_assoc; reflexivity] ].
+Qed.
